@@ -175,6 +175,11 @@ def scenarios(tier, seed):
                    "advances": [1, 2, 3, 4], "seed": seed * 1000 + 9, "traces": 60 * k, "len": 90,
                    "w_live": 8, "w_catchup": 16, "cu_garbage": True},
          dict(FD_CONST, Grace=3), False, GARBAGE_EXCLUDED),
+        # ... on copies that already have a GC watermark (many deletions, collection passes, long advances)
+        ("s3cugd", {"nodes": ["n1", "n2", "n3"], "grace": 2, "keys": ["k1", "k2", "k3"],
+                    "advances": [2, 3, 4], "seed": seed * 1000 + 13, "traces": 60 * k, "len": 120,
+                    "w_del": 8, "w_ttl": 2, "w_sync": 15, "w_catchup": 25, "cu_garbage": True, "nvals": 2},
+         dict(Grace=2), False, GARBAGE_EXCLUDED),
     ]
 
 
